@@ -307,8 +307,33 @@ func (nd *NodeDiff) Sort() {
 	}
 }
 
+// sortNode returns the flattened node (favoring the left side, see LeftNode)
+// that decides the position of this entry. Unlike LeftNode the children are
+// flattened into a detached copy because sorting must not modify the nodes that
+// were compared.
+func (nd *NodeDiff) sortNode() Node {
+	n := nd.Left
+	if IsNil(n) {
+		n = nd.Right
+	}
+
+	switch n.Tag() {
+	case TagIndividual, TagFamily, TagHusband, TagWife, TagChild:
+		// These cannot exist without a document or a family. They are ordered
+		// by their own tag and value.
+		return n
+	}
+
+	flattened := NewNode(n.Tag(), n.Value(), n.Pointer())
+	for _, child := range nd.Children {
+		flattened.AddNode(child.sortNode())
+	}
+
+	return flattened
+}
+
 func (nd *NodeDiff) isLessThan(nd2 *NodeDiff) bool {
-	left, right := nd.LeftNode(), nd2.LeftNode()
+	left, right := nd.sortNode(), nd2.sortNode()
 
 	if left.Tag().sortValue != right.Tag().sortValue {
 		return left.Tag().sortValue < right.Tag().sortValue
